@@ -1086,6 +1086,58 @@ func c11SameRoots(a, b ssa.Value) bool {
 
 // ---------- R2 ----------
 
+// c11PassThroughFilter: g is an in-module function taking an error and
+// returning a single error that is, on every return, either the constant nil or
+// that very parameter (ignoreNotFound(err) / tolerateX(err)): its result is
+// non-nil only if the argument is, and then it IS the argument.  Returns the
+// parameter index, or -1.
+func c11PassThroughFilter(g *ssa.Function) int {
+	if g == nil || !inModule(g) || len(g.Blocks) == 0 || g.Signature.Results().Len() != 1 || !isErrorType(g.Signature.Results().At(0).Type()) {
+		return -1
+	}
+	idx := -1
+	for i, prm := range g.Params {
+		if isErrorType(prm.Type()) {
+			if idx >= 0 {
+				return -1
+			}
+			idx = i
+		}
+	}
+	if idx < 0 {
+		return -1
+	}
+	prm := g.Params[idx]
+	for _, a := range RetAtoms(g, 0) {
+		if k, isK := a.Val.(*ssa.Const); isK && k.IsNil() {
+			continue
+		}
+		if _, z := a.Val.(zeroMarker); z {
+			continue
+		}
+		if strip(a.Val) != ssa.Value(prm) {
+			return -1
+		}
+	}
+	return idx
+}
+
+// c11FilterCalls: calls in fn of a pass-through filter applied to a member of al.
+func c11FilterCalls(fn *ssa.Function, al map[ssa.Value]bool) []*ssa.Call {
+	var out []*ssa.Call
+	for _, call := range Calls(fn, func(string) bool { return true }) {
+		cv, ok := call.(*ssa.Call)
+		if !ok {
+			continue
+		}
+		g := StaticCallee(call)
+		if i := c11PassThroughFilter(g); i >= 0 && i < len(cv.Call.Args) && (al[cv.Call.Args[i]] || al[strip(cv.Call.Args[i])]) {
+			out = append(out, cv)
+		}
+	}
+	return out
+}
+
 // c11SuccessAtoms: the ways fn can return a nil error.
 func c11SuccessAtoms(fn *ssa.Function) []RetAtom {
 	idx := ErrResultIndex(fn.Signature)
@@ -1096,7 +1148,15 @@ func c11SuccessAtoms(fn *ssa.Function) []RetAtom {
 		}
 		if _, z := a.Val.(zeroMarker); !z {
 			if _, k := a.Val.(*ssa.Const); !k {
-				_, nonNil, _ := NilTests(fn, Aliases(a.Val))
+				al := Aliases(a.Val)
+				_, nonNil, _ := NilTests(fn, al)
+				// T(err) != nil implies err != nil when T only ever returns nil or its argument (a tolerance helper)
+				for _, fc := range c11FilterCalls(fn, al) {
+					if r := fc.Value(); r != nil {
+						_, nn, _ := NilTests(fn, Aliases(r))
+						nonNil = append(nonNil, nn...)
+					}
+				}
 				if len(nonNil) > 0 {
 					ct := newCut().Edges(nonNil...)
 					ct.Edges(c11InfeasibleInto(fn, a.Ret, ct)...)
@@ -1719,6 +1779,74 @@ func c11ProbeBaseCallers(c *Ctx, R2, tn string, S *ssa.Function, kIdx map[int]bo
 	c.Check(R2, tn+"|ancestor-probe-uses-write-base", pos, okBase,
 		ifelse(okBase, "the ancestors are Lstat'ed under the same base value the callers join the result with", why+
 			": the probe is resolved against another directory (e.g. the process working directory), finds nothing, and a symlinked ancestor under the real base goes unnoticed"))
+}
+
+// ---------- step tables ----------
+
+// c11StepLoop is `for _, step := range []func() error{a, b, c} { if err :=
+// step(); err != nil { return err } }`: the straight-line sequence a; b; c with
+// early return.  Call is the dynamic call of the loop, Steps the elements of the
+// literal table, Done the "table exhausted" edge (every step ran).
+type c11StepLoop struct {
+	Call  *ssa.Call
+	Steps []ssa.Value
+	Done  Edge
+	Loop  *Loop
+}
+
+func c11StepLoops(fn *ssa.Function) []c11StepLoop {
+	var out []c11StepLoop
+	for _, l := range Loops(fn) {
+		r, _, _, done, ok := l.RangeIndex()
+		if !ok {
+			continue
+		}
+		var els []ssa.Value
+		for _, rr := range Roots(r) {
+			c11SliceElems(rr, &els)
+		}
+		if len(els) == 0 {
+			continue
+		}
+		allFn := true
+		for _, e := range els {
+			if _, isSig := e.Type().Underlying().(*types.Signature); !isSig {
+				allFn = false
+			}
+		}
+		if !allFn {
+			continue
+		}
+		for _, call := range Calls(fn, func(string) bool { return true }) {
+			cv, isCall := call.(*ssa.Call)
+			if !isCall || !l.Contains(cv) || cv.Call.IsInvoke() || StaticCallee(call) != nil {
+				continue
+			}
+			ld, isLoad := cv.Call.Value.(*ssa.UnOp)
+			if !isLoad || ld.Op != token.MUL {
+				continue
+			}
+			ia, isIA := ld.X.(*ssa.IndexAddr)
+			if !isIA || !c11SameRoots(ia.X, r) {
+				continue
+			}
+			out = append(out, c11StepLoop{Call: cv, Steps: els, Done: done, Loop: l})
+		}
+	}
+	return out
+}
+
+// c11BoundMethodStep: step is the method value recv.<name> (bound-method closure); returns recv.
+func c11BoundMethodStep(step ssa.Value, name string) ssa.Value {
+	mc, ok := step.(*ssa.MakeClosure)
+	if !ok || len(mc.Bindings) != 1 {
+		return nil
+	}
+	g, ok := mc.Fn.(*ssa.Function)
+	if !ok || !strings.HasPrefix(g.Synthetic, "bound method") || g.Name() != name+"$bound" {
+		return nil
+	}
+	return mc.Bindings[0]
 }
 
 // ---------- range-over-func loops ----------
